@@ -171,18 +171,30 @@ def detect_renames(btxt, stxt):
 
 
 def apply_renames(region, renames):
-    """rename identifiers in the whole annotated region (code, annotations, rewrite markers)"""
+    """rename identifiers in the whole annotated region (code, annotations, rewrite markers).  Inside annotations and
+    rewrite replacements an identifier that follows `.` or `::` is a field / method / path segment (e.g. the spec method
+    `.rbf(..)`), not the renamed local, and is left alone."""
     out = []
+    mode = "code"
+    prev = None
     for lx in lex(region):
-        if lx.kind == "ident" and lx.text in renames:
-            out.append(renames[lx.text])
-        elif lx.kind == "bcomment" and lx.text.startswith("/*@R"):
-            t = lx.text
+        t = lx.text
+        if lx.kind == "lcomment" and t.rstrip() in ("//@+", "//@-"):
+            mode = "ins" if t.rstrip() == "//@+" else "code"
+        elif lx.kind == "bcomment" and t == "/*+*/":
+            mode = "ins"
+        elif lx.kind == "bcomment" and t in ("/*-*/", "/*@.*/"):
+            mode = "code"
+        elif lx.kind == "bcomment" and t.startswith("/*@R"):
             for a, b in renames.items():
-                t = re.sub(r"(?<![A-Za-z0-9_])%s(?![A-Za-z0-9_])" % re.escape(a), b, t)
-            out.append(t)
-        else:
-            out.append(lx.text)
+                t = re.sub(r"(?<![A-Za-z0-9_.])%s(?![A-Za-z0-9_])" % re.escape(a), b, t)
+            mode = "rew"
+        elif lx.kind == "ident" and t in renames:
+            if mode == "code" or prev not in (".", "::"):
+                t = renames[t]
+        out.append(t)
+        if lx.kind not in TRIVIA:
+            prev = lx.text
     return "".join(out)
 
 
@@ -379,7 +391,21 @@ class Unit:
         try:
             s, e, body_at = locate(text, ipath)
         except LocateError as ex:
-            raise ExtractError("%s: %s" % (where, ex))
+            # the item no longer exists in the source (deleted / renamed / inlined): keep the registered copy in the generated
+            # file so that the rest of the root still verifies; the item is flagged `lost` and handed to the driver
+            segs, base, rewrites = parse_region(region, where)
+            final, n_probe = emit_region(region, self.probe and probe_ok)
+            gen_first = len(self.lines) + 1
+            self.lines.append("// @src %s (LOST: %s)  %s" % (srcfile, ex, ipath))
+            self.lines.extend(final.split("\n"))
+            m = re.search(r"(?:^|/ )fn (\w+)\s*$", ipath)
+            self.items.append({"item": "%s :: %s" % (srcfile, ipath), "src_file": srcfile, "src_lines": [0, 0], "sha256": "",
+                               "src_tokens": 0, "annotation_tokens": 0, "rewrites": rewrites, "status": "conflict",
+                               "conflict": "the item no longer exists in the source (%s)" % ex, "lost": True,
+                               "source_changes": [{"op": "lost", "was": ipath, "now": ""}], "gen_lines": [gen_first, len(self.lines)],
+                               "unit_file": unitfile, "fn": m.group(1) if m else None, "probes": n_probe, "module": self.module,
+                               "kind": "fn" if m else "type", "emits_body": body_open_seg(segs) is not None})
+            return
         slice_text = text[s:e]
         first_line = text.count("\n", 0, s) + 1
         last_line = text.count("\n", 0, e) + 1
